@@ -14,7 +14,7 @@ RULE = (
 )
 ASSUMPTIONS = ["'remains unfixable' includes violations whose fixes are discarded because a TMP/PRS error blocks fixing (the path route's reading)"]
 TIMEOUT = {"quick": 900, "thorough": 1800}
-MIN_NONTRIVIAL = {"quick": 60, "thorough": 500}
+MIN_NONTRIVIAL = {"quick": 25, "thorough": 500}
 REQUIRED_COUNTERS = ["exit_codes_compared"]
 N = 1500
 
@@ -41,7 +41,7 @@ def cases(tier, seed):
     ids = list(range(N))
     random.Random(f"c22:{seed}").shuffle(ids)
     if tier == "quick":
-        ids = ids[:130]
+        ids = ids[:60]
     out = [{"id": f"scen:{i}", "kind": "scen", "idx": i} for i in ids]
     out += [{"id": f"usage:{i}", "kind": "usage", "u": i} for i in range(len(USAGE))]
     return out
